@@ -849,3 +849,37 @@ Proof.
   - destruct (tz_text_facts date_tz_text tz_chk_date_all off H) as (g & A & B & C & _). exists g. auto.
   - destruct (tz_text_facts (fun o => iso_tz (Some o)) tz_chk_iso_all off H) as (g & A & B & C & _). exists g. auto.
 Qed.
+
+(* ---- zone offsets with microsecond resolution (what datetime.timezone can hold) *)
+Lemma tz_of_us_whole m : -840 <= m <= 840 -> tz_of_us (Some (m * 60000000)) = Ok (Some m).
+Proof.
+  intros H. unfold tz_of_us, check_utcoffset_us. rewrite Z.mod_mul by lia. rewrite Z.div_mul by lia.
+  destruct (Z.gtb_spec (Z.abs (m * 60000000)) (14 * 3600 * 1000000)); [lia|]. reflexivity.
+Qed.
+Lemma tz_of_us_reject o : o mod 60000000 <> 0 \/ o < -50400000000 \/ 50400000000 < o ->
+  tz_of_us (Some o) = Err ValueError.
+Proof.
+  intros H. unfold tz_of_us, check_utcoffset_us.
+  destruct (Z.gtb_spec (Z.abs o) (14 * 3600 * 1000000)); [reflexivity|].
+  destruct (Z.eqb_spec (o mod 60000000) 0); [lia|reflexivity].
+Qed.
+Lemma tz_of_us_ok o t : tz_of_us o = Ok t ->
+  tz_ok t = true /\ match o, t with
+                    | None, None => True
+                    | Some u, Some m => u = m * 60000000
+                    | _, _ => False
+                    end.
+Proof.
+  destruct o as [u|]; [|intros [= <-]; split; reflexivity].
+  unfold tz_of_us, check_utcoffset_us.
+  destruct (Z.gtb_spec (Z.abs u) (14 * 3600 * 1000000)); [discriminate|].
+  destruct (Z.eqb_spec (u mod 60000000) 0) as [E|]; [|discriminate]. cbn. intros [= <-].
+  pose proof (Z.div_mod u 60000000 ltac:(lia)) as DM. rewrite E in DM.
+  split; [|lia]. cbn. apply andb_true_iff; split; apply Z.leb_le; lia.
+Qed.
+Lemma with_utcoffset_reject {A} o (k : tz -> res A) :
+  o mod 60000000 <> 0 \/ o < -50400000000 \/ 50400000000 < o -> with_utcoffset (Some o) k = Err ValueError.
+Proof. intros H. unfold with_utcoffset. rewrite (tz_of_us_reject o H). reflexivity. Qed.
+Lemma with_utcoffset_whole {A} m (k : tz -> res A) : -840 <= m <= 840 ->
+  with_utcoffset (Some (m * 60000000)) k = k (Some m).
+Proof. intros H. unfold with_utcoffset. rewrite (tz_of_us_whole m H). reflexivity. Qed.
